@@ -30,7 +30,8 @@ def run_property(pid, repo, tier="quick"):
     mod = importlib.import_module("props." + pid.lower())
     facts = core.Facts(tier, repo)
     res = mod.run(facts, tier)
-    viol = [o for o in res["obligations"] if o["status"] == "violated"]
+    known = {(k["rule"], k["key"]) for k in core.load_known().get("known", []) if k["property"] == pid}
+    viol = [o for o in res["obligations"] if o["status"] == "violated" and (o["rule"], o["key"]) not in known]
     return viol
 
 
